@@ -12,26 +12,41 @@ Ltac Zify.zify_post_hook ::= Z.div_mod_to_equations.
 Module O2.
 Import Gen_Open2N2_ops.
 Record st := { ms : Z -> Z; sh : Z -> Z; hp : Z -> Z }.
-Definition good (b : st) : Prop := Open2N2_Proofs.enc_inv (ms b).
-Definition dec (b : st) : Z := Gen_Open2N2.pvGetMaxProbe (ms b).
 Definition cnt (b : st) : Z := pvGetCount (ms b) (sh b) (hp b).
+(* the short-hash bytes: slot i holds an item (byte < 128 = emptyShortHash) exactly when i >= maxCount - count *)
+Definition sh_inv (b : st) : Prop := forall i, 0 <= i < 3 -> 0 <= sh b i <= 128 /\ (sh b i < 128 <-> 3 - cnt b <= i).
+Definition good (b : st) : Prop := Open2N2_Proofs.enc_inv (ms b) /\ sh_inv b.
+Definition dec (b : st) : Z := Gen_Open2N2.pvGetMaxProbe (ms b).
+Definition full (b : st) : bool := IsFull (ms b) (sh b) (hp b).
 Definition updP (b : st) (p : Z) : st :=
   match Gen_Open2N2.UpdateMaxProbe (ms b) p with Ok (_, m) => {| ms := m; sh := sh b; hp := hp b |} | _ => b end.
-(* AddCrt's remaining arguments: hashCode, logBucketCount, probe, newItem *)
+(* AddCrt's remaining arguments: hashCode, logBucketCount, probe, newItem (hashCode is a size_t) *)
 Definition addP (a : Z * Z * Z * Z) (b : st) : st :=
   let '(hc, lbc, pr, ni) := a in
-  match AddCrt (ms b) (sh b) (hp b) hc lbc pr ni with Ok (_, m, s, h) => {| ms := m; sh := s; hp := h |} | _ => b end.
-(* Remove's remaining argument: the slot index of the removed item *)
+  match AddCrt (ms b) (sh b) (hp b) (wrapU 64 hc) lbc pr ni with Ok (_, m, s, h) => {| ms := m; sh := s; hp := h |} | _ => b end.
+(* Remove's remaining argument: the slot index of the removed item; the iterator points into the bucket (index < maxCount) *)
 Definition remP (a : Z * Z * Z * Z) (b : st) : option st :=
   let '(idx, _, _, _) := a in
-  match Remove (ms b) (sh b) (hp b) idx with Ok (_, m, s, h) => Some {| ms := m; sh := s; hp := h |} | _ => None end.
+  if andb (Z.leb 0 idx) (Z.ltb idx maxCount) then
+    match Remove (ms b) (sh b) (hp b) idx with Ok (_, m, s, h) => Some {| ms := m; sh := s; hp := h |} | _ => None end
+  else None.
 Definition empty : st :=
   let '(m, s) := pvSetEmpty (fun _ => 0) (fun _ => 0) (fun _ => 0) in {| ms := m; sh := s; hp := fun _ => 0 |}.
 
 Lemma cnt_same b : cnt b = Gen_Open2N2.pvGetCount (ms b).
 Proof. reflexivity. Qed.
 Lemma cnt_val b : good b -> cnt b = ms b 1 mod 4.
-Proof. intros (_ & H1 & _). rewrite cnt_same. apply Open2N2_Proofs.pvGetCount_val. lia. Qed.
+Proof. intros ((_ & H1 & _) & _). rewrite cnt_same. apply Open2N2_Proofs.pvGetCount_val. lia. Qed.
+Lemma empty_sh_val : emptyShortHash = 128.
+Proof. vm_compute. reflexivity. Qed.
+Lemma short_hash_range x : 0 <= x < 2 ^ 64 -> 0 <= pvCalcShortHash x < 128.
+Proof.
+  intros Hx. unfold pvCalcShortHash. replace hashCodeShift with 57 by (vm_compute; reflexivity).
+  rewrite Z.shiftr_div_pow2 by lia.
+  assert (0 <= x / 2 ^ 57 < 128).
+  { split; [apply Z.div_pos; lia|]. apply Z.div_lt_upper_bound; [lia|]. change (2 ^ 57 * 128) with (2 ^ 64). lia. }
+  rewrite wrapU_small by (change (2 ^ 8) with 256; lia). lia.
+Qed.
 
 (* a byte whose low two bits change by +-1 without carry keeps its upper six bits *)
 Lemma byte_inc x : 0 <= x < 256 -> x mod 4 < 3 -> wrapU 8 (x + 1) = x + 1 /\ (x + 1) / 4 = x / 4 /\ (x + 1) mod 4 = x mod 4 + 1.
@@ -50,31 +65,54 @@ Proof.
   intros Hq Hv Hm. unfold Gen_Open2N2.pvGetMaxProbe. rewrite upd_same, (upd_other m 1 v 0) by lia.
   rewrite !Z.shiftr_div_pow2 by lia. change (2 ^ 2) with 4. rewrite Hq. reflexivity.
 Qed.
+Lemma cnt_byte1 m s h v : 0 <= v -> pvGetCount (upd m 1 v) s h = v mod 4.
+Proof. intros Hv. unfold pvGetCount. rewrite upd_same. apply Open2N2_Proofs.land3. exact Hv. Qed.
+
+Ltac split_upd := unfold upd; repeat match goal with |- context [Z.eqb ?a ?b] => destruct (Z.eqb_spec a b) end; cbv beta iota.
 
 Theorem add_spec a b : good b -> 0 <= cnt b < 3 ->
   good (addP a b) /\ dec (addP a b) = dec b /\ cnt (addP a b) = cnt b + 1.
 Proof.
-  intros Hg Hc. destruct a as [[[hc lbc] pr] ni]. pose proof Hg as (H0 & H1 & Hm & He).
+  intros Hg Hc. destruct a as [[[hc lbc] pr] ni]. pose proof Hg as ((H0 & H1 & Hm & He) & Hs).
   pose proof (cnt_val b Hg) as Hcv. unfold addP, AddCrt. fold (cnt b).
   replace (Z.ltb (cnt b) maxCount) with true by (symmetry; apply Z.ltb_lt; unfold maxCount; lia).
   destruct (byte_inc (ms b 1) H1 ltac:(lia)) as (Hw & Hq & Hr).
+  pose proof (short_hash_range (wrapU 64 hc) (wrapU_range 64 hc ltac:(lia))) as Hsh.
+  set (shv := pvCalcShortHash (wrapU 64 hc)) in *. clearbody shv.
+  replace (wrapU 64 (wrapU 64 (maxCount - 1) - cnt b)) with (2 - cnt b)
+    by (unfold maxCount; rewrite (wrapU_small 64 (3 - 1)) by lia; symmetry; apply wrapU_small; lia).
   unfold good, dec, cnt. cbn [ms sh hp]. rewrite Hw.
-  split; [apply enc_inv_byte1; [exact Hg|lia|exact Hq]|].
-  split; [apply dec_byte1; [exact Hq|lia|lia]|].
-  unfold pvGetCount. rewrite upd_same. rewrite !Open2N2_Proofs.land3 by lia. exact Hr.
+  split; [split; [apply enc_inv_byte1; [exact (proj1 Hg)|lia|exact Hq]|]|].
+  - intros i Hi. unfold sh_inv, cnt in *. cbn [ms sh hp]. rewrite cnt_byte1 by lia. rewrite Hr, <- Hcv.
+    specialize (Hs i Hi). split_upd; lia.
+  - unfold cnt in *. split; [apply dec_byte1; [exact Hq|lia|lia]|]. rewrite cnt_byte1 by lia. lia.
 Qed.
 
 Theorem rem_spec a b b' : good b -> 0 < cnt b <= 3 -> remP a b = Some b' ->
   good b' /\ dec b' = dec b /\ cnt b' = cnt b - 1.
 Proof.
-  intros Hg Hc Hr. destruct a as [[[idx x1] x2] x3]. pose proof Hg as (H0 & H1 & Hm & He).
-  pose proof (cnt_val b Hg) as Hcv. unfold remP, Remove in Hr. fold (cnt b) in Hr.
-  destruct (Z.geb idx (wrapU 64 (maxCount - cnt b))); [|discriminate].
-  destruct (byte_dec (ms b 1) H1 ltac:(lia)) as (Hw & Hq & Hrm).
-  inversion Hr; subst b'; clear Hr. unfold good, dec, cnt. cbn [ms sh hp]. rewrite Hw.
-  split; [apply enc_inv_byte1; [exact Hg|lia|exact Hq]|].
-  split; [apply dec_byte1; [exact Hq|lia|lia]|].
-  unfold pvGetCount. rewrite upd_same. rewrite !Open2N2_Proofs.land3 by lia. exact Hrm.
+  intros Hg Hc Hr. destruct a as [[[idx x1] x2] x3]. pose proof Hg as ((H0 & H1 & Hm & He) & Hs).
+  pose proof (cnt_val b Hg) as Hcv. unfold remP in Hr.
+  destruct (Z.leb_spec 0 idx) as [Hi0|]; [|discriminate]. destruct (Z.ltb_spec idx maxCount) as [Hi3|]; [|discriminate].
+  cbn [andb] in Hr. unfold Remove in Hr. fold (cnt b) in Hr. unfold maxCount in *.
+  rewrite (wrapU_small 64 (3 - cnt b)) in Hr by lia.
+  destruct (Z.geb_spec idx (3 - cnt b)) as [Hge|]; [|discriminate].
+  destruct (byte_dec (ms b 1) H1 ltac:(lia)) as (Hw & Hq & Hrm). rewrite Hw in Hr.
+  match type of Hr with Some ?t = _ => assert (Hb' : b' = t) by congruence end. clear Hr. subst b'.
+  unfold good, dec, cnt. cbn [ms sh hp].
+  split; [split; [apply enc_inv_byte1; [exact (proj1 Hg)|lia|exact Hq]|]|].
+  - intros i Hi. unfold sh_inv, cnt in *. cbn [ms sh hp]. rewrite cnt_byte1 by lia. rewrite Hrm, <- Hcv.
+    set (c := pvGetCount (ms b) (sh b) (hp b)) in *.
+    pose proof (Hs i Hi) as Hsi. pose proof (Hs (3 - c) ltac:(lia)) as Hsl. pose proof (Hs idx ltac:(lia)) as Hsx.
+    rewrite empty_sh_val. clearbody c. split_upd; subst; lia.
+  - unfold cnt in *. split; [apply dec_byte1; [exact Hq|lia|lia]|]. rewrite cnt_byte1 by lia. lia.
+Qed.
+
+(* IsFull (what HashSet::pvAddNogrow tests) says exactly "count = maxCount" *)
+Theorem full_iff b : good b -> 0 <= cnt b <= 3 -> (full b = true <-> cnt b = 3).
+Proof.
+  intros (_ & Hs) Hc. unfold full, IsFull. rewrite empty_sh_val. specialize (Hs 0 ltac:(lia)).
+  destruct (Z.ltb_spec (sh b 0) 128); split; intros; try discriminate; try reflexivity; lia.
 Qed.
 
 Lemma pow_le_63 n : 0 <= n <= 63 -> 2 ^ n <= 2 ^ 63.
@@ -85,10 +123,12 @@ Variable n : Z. Hypothesis Hn : 0 <= n <= 63.
 Lemma upd_all b p : good b -> 0 <= p < 2 ^ n ->
   good (updP b p) /\ p <= dec (updP b p) /\ dec b <= dec (updP b p) /\ cnt (updP b p) = cnt b.
 Proof.
-  intros Hb Hp. pose proof (pow_le_63 n Hn).
+  intros (Hb & Hs) Hp. pose proof (pow_le_63 n Hn).
   destruct (Open2N2_Proofs.update_spec (ms b) p Hb ltac:(lia)) as (s' & Hr & Hi & Hge & Hmono & Hcnt).
-  unfold updP. rewrite Hr. unfold good, dec, cnt. cbn [ms sh hp].
-  split; [exact Hi|]. split; [exact Hge|]. split; [exact Hmono|exact Hcnt].
+  unfold updP. rewrite Hr. unfold good, dec, cnt, sh_inv. cbn [ms sh hp].
+  assert (Hc' : pvGetCount s' (sh b) (hp b) = cnt b) by exact Hcnt.
+  split; [split; [exact Hi|]|]. { intros i Hi'. unfold cnt. cbn [ms sh hp]. rewrite Hc'. apply Hs; exact Hi'. }
+  split; [exact Hge|]. split; [exact Hmono|exact Hcnt].
 Qed.
 Lemma upd_good b p : good b -> 0 <= p < 2 ^ n -> good (updP b p).
 Proof. intros Hb Hp. destruct (upd_all b p Hb Hp) as (H & _). exact H. Qed.
@@ -101,14 +141,19 @@ Proof. intros Hb Hp. destruct (upd_all b p Hb Hp) as (_ & _ & _ & H). exact H. Q
 End Upd.
 
 (* the constructor / Clear (pvSetEmpty) produce the state all histories start from *)
-Lemma empty_good : good empty /\ cnt empty = 0 /\ dec empty = 0.
-Proof. unfold good, cnt, dec, Open2N2_Proofs.enc_inv. vm_compute. repeat split; intros; try discriminate; try lia. Qed.
-Lemma clear_resets m s h : let '(m', s') := Clear m s h in
+Lemma setempty_good m s h : let '(m', s') := pvSetEmpty m s h in
   good {| ms := m'; sh := s'; hp := h |} /\ cnt {| ms := m'; sh := s'; hp := h |} = 0 /\ dec {| ms := m'; sh := s'; hp := h |} = 0.
 Proof.
-  unfold Clear, pvSetEmpty, good, cnt, dec, Open2N2_Proofs.enc_inv, pvGetCount, Gen_Open2N2.pvGetMaxProbe. cbn [ms sh hp].
-  rewrite !upd_same. rewrite (upd_other _ 1 0 0) by lia. rewrite upd_same. cbn. repeat split; intros; lia.
+  unfold pvSetEmpty, good, cnt, dec, sh_inv, Open2N2_Proofs.enc_inv, pvGetCount, Gen_Open2N2.pvGetMaxProbe. cbn [ms sh hp].
+  rewrite !upd_same. rewrite (upd_other _ 1 0 0) by lia. rewrite upd_same. rewrite empty_sh_val. unfold maxCount.
+  split; [split; [cbn; repeat split; intros; lia|]|cbn; split; reflexivity].
+  intros i Hi. destruct (Z.leb_spec 0 i); [|lia]. destruct (Z.ltb_spec i 3); [|lia]. cbn. lia.
 Qed.
+Lemma empty_good : good empty /\ cnt empty = 0 /\ dec empty = 0.
+Proof. exact (setempty_good (fun _ => 0) (fun _ => 0) (fun _ => 0)). Qed.
+Lemma clear_resets m s h : let '(m', s') := Clear m s h in
+  good {| ms := m'; sh := s'; hp := h |} /\ cnt {| ms := m'; sh := s'; hp := h |} = 0 /\ dec {| ms := m'; sh := s'; hp := h |} = 0.
+Proof. exact (setempty_good m s h). Qed.
 End O2.
 
 (* ------------------------------------------------------------------ OpenN1<maxCount, reverse> / Open8 (= OpenN1<7, false>) *)
@@ -239,6 +284,13 @@ Proof.
     assert (Hs : upd d2 sp (248 + mc - 1) sp = 248 + mc - 1) by apply upd_same.
     split; [exact (good_of d _ _ Hg Hmcv Hs ltac:(lia))|]. split; [intros L; exact (bound_of d _ L Hmcv)|].
     rewrite (cnt_of_state _ _ Hs) by lia. destruct (Z.geb_spec (248 + mc - 1) 248); lia.
+Qed.
+
+(* IsFull (what HashSet::pvAddNogrow tests) says exactly "count = maxCount" *)
+Theorem full_iff d : good d -> (IsFull rv mc d = true <-> cnt d = mc).
+Proof.
+  intros Hg. rewrite (cnt_val d Hg). destruct Hg as (_ & H0). unfold IsFull, emptyShortHash. rewrite sp_gen.
+  destruct (Z.ltb_spec (d sp) 248); destruct (Z.geb_spec (d sp) 248); split; intros; try discriminate; try reflexivity; lia.
 Qed.
 
 (* pvSetEmpty / Clear / the constructor: every short hash empty (count 0), bound 0 *)
